@@ -59,6 +59,9 @@ func c16Dialects() {
 		dialects["wronghb"] = &dialect.Dialect{Version: 3, Messages: append([]message.Message{&MessageHeartbeat{}}, without(0)...)}
 		dialects["noreq"] = &dialect.Dialect{Version: 3, Messages: without(66)}
 		dialects["common9"] = &dialect.Dialect{Version: 9, Messages: common.Dialect.Messages}
+		// a dialect without <version> (two shipped ones have none) and the largest version a heartbeat can carry
+		dialects["common0"] = &dialect.Dialect{Version: 0, Messages: common.Dialect.Messages}
+		dialects["common255"] = &dialect.Dialect{Version: 255, Messages: common.Dialect.Messages}
 	})
 }
 
@@ -440,7 +443,7 @@ func genC16(r *rngT, n int, tier string) {
 	jobs := make([]job, 0, n)
 	for i := 0; i < n; i++ {
 		if i%3 == 0 {
-			dn := []string{"common", "common", "common9", "-", "nohb", "wronghb", "ardupilotmega", "minimal"}[r.Intn(8)]
+			dn := []string{"common", "common0", "common9", "-", "nohb", "wronghb", "ardupilotmega", "minimal", "common255", "common0"}[r.Intn(10)]
 			dis := 0
 			if r.Intn(4) == 0 {
 				dis = 1
